@@ -129,7 +129,7 @@ func c06Gen(r *driver.Rand, thorough bool) *driver.Plan {
 		p.Mode = driver.Pick(r, "pure", "lift")
 	}
 	if p.Mode != "pure" && r.Chance(1, 4) {
-		p.SetX("err_kind", 1+r.Intn(2))
+		p.SetX("err_kind", 1+r.Intn(3))
 	}
 	if stage == "StdErr" && r.Chance(1, 2) {
 		// the library's own error reader: many failures, of any kind
@@ -140,7 +140,7 @@ func c06Gen(r *driver.Rand, thorough bool) *driver.Plan {
 				p.FailAt = append(p.FailAt, i)
 			}
 		}
-		p.SetX("err_kind", r.Intn(3))
+		p.SetX("err_kind", r.Intn(4))
 	} else if p.Mode != "pure" && r.Chance(1, 2) {
 		k := 1 + r.Intn(2)
 		p.FailAt = nil
@@ -174,8 +174,12 @@ func c06Gen(r *driver.Rand, thorough bool) *driver.Plan {
 	case 4:
 		p.CancelAtEnd = true
 	}
-	if !isGenerator(stage) && r.Chance(1, 8) {
-		p.SetX("late_build", 1+r.Intn(12))
+	if r.Chance(1, 8) {
+		p.SetX("late_build", 1+r.Intn(12)) // also for generators: the context may be cancelled before the stage exists
+	}
+	if r.Chance(1, 5) {
+		// user functions that take (virtual) time: a call may be in flight when the cancel comes
+		p.FnStallMs = []int{driver.Pick(r, 0, 1, 60), driver.Pick(r, 0, 60, 200, 1100)}
 	}
 	if p.CancelStep < 0 && p.CancelMs == 0 && !p.CancelAtEnd && r.Chance(1, 3) {
 		p.SetX("uses", 2)
@@ -234,8 +238,8 @@ func c06BuildOne(e *driver.Env) {
 func joinOnline(s *Sys, clause string) func(i, v int) {
 	next := map[int]int{}
 	return func(i, v int) {
-		in := v / 1000
-		idx := v % 1000
+		in := v / stride
+		idx := v % stride
 		if in < 0 || in >= len(s.P.Inputs) || idx >= len(s.P.Inputs[in]) || s.P.Inputs[in][idx] != v {
 			s.E.Failf(clause, "Join delivered an element that no input contains", "Join delivered %d; inputs %v", v, s.P.Inputs)
 			return
